@@ -340,6 +340,13 @@ def _cut(ctx, index, rule="C15.cut"):
             why = None
             if isinstance(full, ast.Call) and norm(full.func) == "len":
                 why = "cuts an affix by its length"
+            elif isinstance(full, ast.Name) and not any(
+                isinstance(a_, (ast.Assign, ast.AnnAssign, ast.AugAssign)) and any(isinstance(t_, ast.Name) and t_.id == full.id for t_ in (a_.targets if isinstance(a_, ast.Assign) else [a_.target]))
+                for a_ in iter_own(g.node)
+            ):
+                # a parameter, or a loop variable unpacked from a precomputed table of (affix, length) pairs: nothing is
+                # MEASURED here; the rule is about quantities the function computes from the text it is cutting
+                why = "not computed in this function (parameter / loop variable)"
             else:
                 txt = norm(raw)
                 for text, truth in (facts_at.get(id(n)) or {}).items():
